@@ -157,7 +157,7 @@ CHECKS["C02"] = dict(
 CHECKS["C03"] = dict(
     engine="E1-config-lattice",
     technique="enumeration of settings family x semilocal mode x rho_mult x plan x molecule x lambda in {1/2, 2/3, 3/2, 2}; the real feature pipeline is run on a molecule and on its exactly co-scaled image (exponents x lambda^2, geometry / lambda, grid / lambda, weights / lambda^3, exponent window, cutoffs and length tables co-scaled) and the scaling exponent of every feature is measured pointwise",
-    text="Premise n_lambda(r/lambda) = lambda^3 n(r) is asserted to 1e-10. Then (a) every semilocal plan feature at every mode, (b) the CIDER exponent, (c) every NLDF feature of versions j, i (incl. every vector dot), ij, k at GGA/MGGA, rho_mult one/expnt, Gaussian and spline plans, (d) every SDMX family feature, scales with the declared integer power (median measured exponent within 0.05; a wrong table entry is off by >= 1); (e) after the recommended normalisation every declared power is exactly 0 in the tables and the normalised features of the real pipeline change by < 5e-2 of their scale (measured noise <= 2.3e-2; smallest integer mismatch gives >= 0.33); (f) each normaliser class multiplies the power by the documented amount; (g) a mapped exchange model with LDA_X baseline reading normalised features obeys E_x[n_lambda] = lambda E_x[n] (1e-9 semilocal, 3e-3 nonlocal).",
+    text="Premise n_lambda(r/lambda) = lambda^3 n(r) is asserted to 1e-10. Then (a) every semilocal plan feature at every mode, (b) the CIDER exponent, (c) every NLDF feature of versions j, i (incl. every vector dot), ij, k at GGA/MGGA, rho_mult one/expnt, Gaussian and spline plans, (d) every SDMX family feature, scales with the declared integer power (median measured exponent within 0.05; a wrong table entry is off by >= 1); (e) after the recommended normalisation every declared power is exactly 0 in the tables and the normalised features of the real pipeline change by < 5e-2 of their scale (measured noise <= 2.3e-2; smallest integer mismatch gives >= 0.33); (f) each normaliser class multiplies the power by the documented amount; (g) a mapped exchange model with LDA_X baseline reading normalised features obeys E_x[n_lambda] = lambda E_x[n] (1e-9 semilocal, 1e-2 nonlocal).",
     note="The auxiliary even-tempered ladder stays snapped to integer powers of beta in the scaled run: that snapping is the measured noise floor. Fractional-Laplacian features and HybridSettings have no evaluator in the PySCF path and are covered only through their declared tables.",
     design="5/C03",
 )
